@@ -69,6 +69,24 @@ META["C02"] = {
     "technique": "static analysis: forward taint + backward provenance on MIR aggregates, dominator rules, enum-map extraction, grammar reader",
 }
 
+META["C04"] = {
+    "level": "Decision tables folded by abstract interpretation of MIR (chirality collapse), wildcard reachability by decision-region "
+             "enumeration (18 shapes), collection-provenance rules for lifted definitions and eta-expansions; all site populations "
+             "finite and enumerated completely. No test exercises core2axcut at all.",
+    "design_ref": "DESIGN.md §4 C04 (R-SHAPE, R-SAMESRC, R-DECLSRC, chirality table), §3 R-ENUM/R-FRESH",
+    "note": "Partial: the right-hand side of each cut shape (which AxCut statement it becomes) is not decided.",
+    "technique": "static analysis: abstract interpretation of MIR over finite domains, decision-region path enumeration, collection provenance",
+}
+META["C19"] = {
+    "level": "Symbolic execution of the translation functions over MIR facts with lazily refined algebraic shapes: the guard that lets "
+             "a continuation bypass share()/lift() is evaluated structurally (which shapes can pass it) and judged by a size-boundedness "
+             "criterion on the ADT table, not by a frozen copy of the guard. Witness families in tests reach depth 16; this covers "
+             "every shape.",
+    "design_ref": "DESIGN.md §4 C19 (R-SHARE)",
+    "note": "Partial: decides the sharing discipline (the mechanism behind the bound), not the degree of the polynomial.",
+    "technique": "static analysis: symbolic execution over MIR facts with finite variant-set constraints (no solver), ADT-table boundedness criterion",
+}
+
 NOT_APPLICABLE = {
     "C09": "Run-time heap invariant of *generated* code at every statement boundary of every execution; no path property of the "
            "compiler's source corresponds to it and no sound static argument in reach bounds it (DESIGN.md §4 C09/C10).",
@@ -77,5 +95,5 @@ NOT_APPLICABLE = {
 }
 # properties whose checks are not built yet are listed here until their rules exist (kept current by bin/gen-manifest)
 PENDING = "check not built yet in this round; planned rules are in DESIGN.md §4"
-for _p in ["C04", "C06", "C07", "C08", "C11", "C13", "C14", "C15", "C16", "C19", "C20"]:
+for _p in ["C06", "C07", "C08", "C11", "C13", "C14", "C15", "C16", "C20"]:
     NOT_APPLICABLE.setdefault(_p, PENDING)
